@@ -53,7 +53,7 @@ class ExceptionsEmitter:
         generated_code, alias_names, status_codes = self.visitor.visit(spec, context)
 
         # Update registry if we have a client package name (shared core scenario)
-        if client_package_name and self._is_shared_core(output_dir):
+        if client_package_name and self._is_shared_core(output_dir, client_package_name):
             all_codes = self._update_registry(registry_path, client_package_name, status_codes)
             # Regenerate with ALL codes from registry
             generated_code, alias_names = self._generate_for_codes(all_codes, context)
@@ -74,15 +74,23 @@ class ExceptionsEmitter:
 
         return [file_path], alias_names
 
-    def _is_shared_core(self, core_dir: str) -> bool:
+    def _is_shared_core(self, core_dir: str, client_package_name: str | None = None) -> bool:
         """Check if this core package is shared between multiple clients.
 
         Args:
             core_dir: Path to the core package directory
+            client_package_name: Fully qualified name of the client package being generated
 
         Returns:
             True if the core package is outside the immediate client package
         """
+        # The package names decide: a core that does not live inside the client's own package can be
+        # shared with other clients, however deep it sits below the project root.
+        if client_package_name and "." in self.core_package_name:
+            inside_client = self.core_package_name == client_package_name or self.core_package_name.startswith(
+                client_package_name + "."
+            )
+            return not inside_client
         # If overall_project_root is set and different from the core dir's parent,
         # we're in a shared core scenario
         if self.overall_project_root:
